@@ -12,6 +12,7 @@ from vlib.harness import V, derive_seed, run_shards
 from vlib.lib import call as safe_call
 
 PROPERTY = 'C08'
+AMBIENT_PASS = True        # the same search once more under unusual ambient settings (vlib.run.AMBIENT_SETTINGS)
 RULE = ('competition prefixes: every k-th distinct state of a breadth-first enumeration of all call sequences (n=2 depth 8/9, '
         'n=3 depth 6/7) and the end and two drawn mid-points of card-driven plays of complete competitions (1-4 athletes, up '
         'to 4 regular + 3 jump-off heights, refused calls interspersed); for each prefix: (1) from_actions replay of the '
@@ -20,6 +21,7 @@ RULE = ('competition prefixes: every k-th distinct state of a breadth-first enum
         '(state, heights, cards, bests, places, trials) / card equality modulo pass marks / every interleaving accepted '
         'call-by-call with the same outcome; non-trivial = a prefix with >= 2 athletes having >= 2 trials each at one height, '
         'or containing a jump-off; distinct by (cards, heights)')
+RULE = RULE + '; one prefix in three enters athletes with the optional start-list keywords (names, team, category, order, guest flag); the card is exported with the plain, the default and the start-list columns and imported also with verbose=True'
 ASSUMPTIONS = ['all three clauses are judged for prefixes inside the territory the rules speak about (no pass inside a jump-off, '
                'bar not moved before everybody jumped, at least one clearance); beyond it (plays continued for 30 arbitrary '
                'calls) places are undefined and the unchanged library ranks a re-imported card differently, so only the log '
